@@ -163,6 +163,10 @@ func init() {
 				r.f += int64(rng.Intn(3) - 1)
 				l = append(l, clampExt(r))
 			}
+			if rng.Intn(5) == 0 { // mixed zooms in one list: any relative of an element, in particular its twins (the same numbers
+				// at another vertical or horizontal zoom are another voxel with its own neighbourhood)
+				l = append(l, relative(l[rng.Intn(len(l))]))
+			}
 			idl := maybeCorrupt(ids(l), 0.04)
 			if rng.Intn(25) == 0 { // the empty list (also together with negative layer counts)
 				idl = nil
